@@ -184,10 +184,14 @@ def _tuple_jobs(tier, prop):
          "get_set": ["Tuple_Get", "Tuple_Set"], "set_bad": ["Tuple_Set"], "mem_rem": ["Tuple_Mem", "Tuple_Rem", "Tuple_Pop_At"],
          "resize": ["Tuple_Resize"], "del": ["Tuple_Del"], "concat": ["Tuple_Concat"], "assign": ["Tuple_Assign"],
          "iter": ["Tuple_Iter_Init", "Tuple_Iter_Next", "Tuple_Iter_Last", "Tuple_Iter_Prev", "Tuple_Len"],
-         "hash_cmp": ["Tuple_Hash", "Tuple_Cmp"], "mark": ["Tuple_Mark"], "show": ["Tuple_Show"], "sort": ["Tuple_Sort_By", "Tuple_Sort_Part", "Tuple_Sort_Partition", "Tuple_Swap"]}
-    def add(op, n, idx=None, m=None, covers=False, heap=1, dup=0, group=None, extra=(), unwind=8):
-        defs = ["N=%d" % n]
+         "hash_cmp": ["Tuple_Hash", "Tuple_Cmp"], "mark": ["Tuple_Mark"], "show": ["Tuple_Show"], "sort": ["Tuple_Sort_By", "Tuple_Sort_Part", "Tuple_Sort_Partition", "Tuple_Swap"],
+         "sort_partition": ["Tuple_Sort_Partition", "Tuple_Swap"], "sort_part": ["Tuple_Sort_Part (partition and recursive calls cut by their contracts)"], "sort_by": ["Tuple_Sort_By"]}
+    tbody = extract_function("src/Tuple.c", "Tuple_Sort_Part", "Tuple_Sort_Part_body")
+    def add(op, n, idx=None, m=None, covers=False, heap=1, dup=0, group=None, extra=(), unwind=8, rng=None, rc=(), gen=None, defs2=()):
+        defs = ["N=%d" % n] + list(defs2)
         name = "%s.Tuple.%s.n%d" % (prop, group or op, n)
+        if rng is not None:
+            defs += ["SL=%d" % rng[0], "SR=%d" % rng[1]]; name += ".r%d_%d" % rng
         if idx is not None:
             defs.append("IDX=%d" % idx); name += ".i%s" % (str(idx).replace("-", "m"))
         if m is not None:
@@ -196,13 +200,20 @@ def _tuple_jobs(tier, prop):
             defs.append("HEAP=0"); name += ".stack_" + op
         if dup:
             defs.append("DUP=1")
-        J.append(Job(name, "C04", "K3", "Tuple/k3.c", "h_" + op, F[op], link=L, defines=defs, replace_calls=["exception_throw:cv_throw"],
+        J.append(Job(name, "C04", "K3", "Tuple/k3.c", "h_" + op, F[op], link=L, defines=defs, replace_calls=["exception_throw:cv_throw"] + list(rc), gen=gen,
                      unwind=unwind, cbmc=["--unwindset", "cv_live_count.0:26", "--no-malloc-may-fail"] + list(extra), covers=covers,
                      group="Tuple.%s" % (group or op), also=["C11", "C12", "C19", "C09", "C10", "C01", "C14"], timeout=400,
                      bound="Tuple: length <= %d, every index in [-len-2, len+1], heap and stack receivers" % nmax,
                      case="len=%d%s%s%s%s" % (n, "" if idx is None else " index=%d" % idx, "" if m is None else " operand_len=%d" % m, "" if heap else " stack receiver", " repeated item" if dup else ""),
                      replay="seq_tuple.c",
                      assumptions=["element model (contracts/elem.h)", "malloc/realloc/free: cbmc built-in models, allocation failure not explored (--no-malloc-may-fail)"]))
+    for n in range(2, (SORT_MAX if tier == "thorough" else SORT_MAX - 1) + 1):
+        for lo in range(0, n):
+            for hi in range(lo + 1, n):
+                add("sort_partition", n, covers=(lo == 0 and hi == n - 1), rng=(lo, hi))
+                add("sort_part", n, covers=(lo == 0 and hi == n - 1), rng=(lo, hi), rc=["Tuple_Sort_Partition:cv_partition_stub", "Tuple_Sort_Part:cv_sort_part_stub"],
+                    gen={"gen_sort_part.h": tbody}, defs2=["CV_SORT_BODY"])
+        add("sort_by", n, covers=True, rc=["Tuple_Sort_Part:cv_sort_part_top"])
     for n in range(0, nmax + 1):
         add("push", n, covers=True); add("pop", n, covers=True)
         for i in range(-(n + 2), n + 2):
